@@ -758,6 +758,37 @@ fn run_real(c: &RealCase, id: usize, work: &Path) -> Result<RealRun, String> {
     // ---- the searches: Dijkstra (no weight factor in its query) and the configured A* with the query as given
     let dj = route_of(SearchAlgorithm::Dijkstra.run_vertex_oriented(VertexId(c.s), Some(VertexId(c.t)), &q_dj, &dir_r, &si));
     let ast = route_of(app.search_app.search_algorithm.run_vertex_oriented(VertexId(c.s), Some(VertexId(c.t)), &q_as, &dir_r, &si));
+    // ---- edge-locality measured on the implementation: the last edge of Dijkstra's route, traversed from the states
+    //      reached after 0, 10 and all hops of that route, must cost the same (within rounding)
+    let (loc_edge, loc_route, loc_pos): (usize, Vec<usize>, Vec<usize>) = if dj.0 == "Ok" && dj.1.len() >= 2 {
+        let k = dj.1.len();
+        (*dj.1.last().unwrap(), dj.1.clone(), vec![0, k.min(10), k])
+    } else {
+        (0, vec![], vec![])
+    };
+    let mut loc_vals: Vec<Result<f64, String>> = vec![];
+    for k in &loc_pos {
+        let mut st = init.clone();
+        let mut prev: Option<EdgeId> = None;
+        let mut err: Option<String> = None;
+        for e in loc_route.iter().take(*k) {
+            match EdgeTraversal::forward_traversal(EdgeId(*e), prev, &st, &si) {
+                Ok(et) => {
+                    st = et.result_state.clone();
+                    prev = Some(EdgeId(*e));
+                }
+                Err(x) => {
+                    err = Some(x.to_string());
+                    break;
+                }
+            }
+        }
+        loc_vals.push(match err {
+            Some(x) => Err(x),
+            None => EdgeTraversal::forward_traversal(EdgeId(loc_edge), None, &st, &si).map(|et| et.total_cost().as_f64()).map_err(|e| e.to_string()),
+        });
+    }
+    let i_payload = format!("{} loc={}", i_payload, show_list(&loc_vals, |r| show_r(r.clone())));
     // ---- specification side: the cost model of the weights / rates / aggregation IN FORCE, built directly
     let eff_w: &Assoc<f64> = c.q_w.as_ref().unwrap_or(&c.cfg_w);
     let eff_v: &Assoc<Rate> = c.q_v.as_ref().unwrap_or(&c.cfg_v);
@@ -811,6 +842,7 @@ fn run_real(c: &RealCase, id: usize, work: &Path) -> Result<RealRun, String> {
         }
     };
     let mut j_payload = format!("{} {}", show_rt("dj", &dj), if as_claim { show_rt("as", &ast) } else { "as=noclaim".to_string() });
+    j_payload += " loc=OK";
     if !hygiene {
         j_payload += " HYGIENE-FAIL(implementation haversine differs from the independent great-circle distance by more than 0.5 %)";
     }
@@ -863,9 +895,10 @@ fn run_real(c: &RealCase, id: usize, work: &Path) -> Result<RealRun, String> {
         coq_opt(&c.q_mul, |m| agg(*m).to_string()),
         f(wf_eff)
     );
+    let m_term = format!("{} {} {} {}", m_term, loc_edge, coq_list(&loc_route, |e| e.to_string()), coq_list(&loc_pos, |e| e.to_string()));
     let rr = |r: &(String, Vec<usize>)| format!("({}, {})", coq_string(&r.0), coq_list(&r.1, |e| e.to_string()));
     let s_term = format!(
-        "OR.rline_S {}%Z {} {} {} {} {} {} {} {} {}",
+        "OR.rline_S {}%Z {} {} {} {} {} {} {} {} {} {}",
         id,
         c.coords.len(),
         coq_list(&c.edges, |e| format!("({}, {})", e.0, e.1)),
@@ -875,7 +908,8 @@ fn run_real(c: &RealCase, id: usize, work: &Path) -> Result<RealRun, String> {
         c.t,
         rr(&dj),
         rr(&ast),
-        coq_bool(as_claim)
+        coq_bool(as_claim),
+        coq_list(&loc_vals.iter().filter_map(|r| r.clone().ok()).collect::<Vec<f64>>(), |x| coq_q(*x))
     );
     let _ = std::fs::remove_dir_all(&dir);
     Ok(RealRun { i_payload, j_payload, m_term, s_term, as_claim, dj_status: dj.0.clone(), as_status: ast.0.clone(), routes_differ: dj.1 != ast.1, hist })
@@ -1100,6 +1134,86 @@ fn highway_network(c: &mut RealCase, extra_slow: usize, direct_speed: f64) {
     c.su = "kilometers_per_hour".into();
 }
 
+/// a chain of `hops` edges (one long edge next to the search origin, then short ones) against a single direct edge that
+/// is `permille_x10`/10000 longer than the chain's total: the chain must win, by a margin far above rounding and far below
+/// what a hop-dependent (non edge-local) cost would add
+fn chain_network(c: &mut RealCase, hops: usize, short: f64, delta: f64, speed: f64) {
+    let o = (12.0, 47.0);
+    let d = (12.125, 47.0);
+    // the long edge is the first one met by the search: forward from vertex 0, reverse from vertex `hops`
+    let big_first_forward = !c.reverse;
+    let mut coords = vec![];
+    for v in 0..=hops {
+        let at_origin = if big_first_forward { v == 0 } else { v < hops };
+        coords.push(if at_origin { o } else { d });
+    }
+    c.coords = coords;
+    let big = metric_len(o, d, 1.0);
+    let mut edges = vec![];
+    let mut total = 0.0;
+    for i in 0..hops {
+        let is_big = if big_first_forward { i == 0 } else { i == hops - 1 };
+        let len = if is_big { big } else { short };
+        total += len;
+        edges.push((i, i + 1, len, speed));
+    }
+    edges.push((0, hops, (total * (1.0 + delta)).ceil(), speed));
+    // decoys: a way back and a dead end
+    edges.push((hops, 0, big, speed));
+    edges.push((1, 0, big, speed));
+    c.edges = edges;
+    c.metric = true;
+    if c.reverse {
+        c.s = hops;
+        c.t = 0;
+    } else {
+        c.s = 0;
+        c.t = hops;
+    }
+}
+
+fn chain_cases() -> Vec<RealCase> {
+    let mut out = vec![];
+    // distance model: every (model unit, state feature unit) pair
+    let mut k = 0usize;
+    for du in DIST_UNITS.iter() {
+        for fdu in DIST_UNITS.iter() {
+            let mut c = blank_case("chain_vs_direct");
+            c.speed_model = false;
+            c.du = Some(du.to_string());
+            c.fdu = Some(fdu.to_string());
+            c.reverse = k % 3 == 2;
+            c.cfg_w = vec![("distance".to_string(), 1.0)];
+            c.cfg_v = vec![("distance".to_string(), if k % 2 == 0 { Rate::Raw } else { Rate::Factor(0.5) })];
+            chain_network(&mut c, [40, 20, 60][k % 3], [100.0, 25.0, 200.0][k % 3], [0.0025, 0.0005, 0.005][k % 3], 50.0);
+            out.push(c);
+            k += 1;
+        }
+    }
+    // speed model: engine units against overridden state feature units, miles on either side
+    for (du, fdu, tu, ftu, wd, wt) in [
+        ("meters", "miles", "seconds", "hours", 1.0, 0.0),
+        ("miles", "kilometers", "minutes", "seconds", 1.0, 0.0),
+        ("kilometers", "miles", "hours", "minutes", 0.0, 1.0),
+        ("miles", "meters", "milliseconds", "hours", 0.0, 1.0),
+        ("feet", "miles", "minutes", "milliseconds", 1.0, 1.0),
+        ("miles", "inches", "seconds", "minutes", 0.5, 2.0),
+    ] {
+        let mut c = blank_case("chain_vs_direct");
+        c.du = Some(du.into());
+        c.fdu = Some(fdu.into());
+        c.tu = Some(tu.into());
+        c.ftu = Some(ftu.into());
+        c.reverse = k % 2 == 1;
+        c.cfg_w = vec![("distance".to_string(), wd), ("time".to_string(), wt)];
+        c.cfg_v = vec![("distance".to_string(), Rate::Raw), ("time".to_string(), Rate::Raw)];
+        chain_network(&mut c, 40, 100.0, 0.0025, 50.0);
+        out.push(c);
+        k += 1;
+    }
+    out
+}
+
 fn real_boundary() -> Vec<RealCase> {
     let mut out = vec![];
     let w = |d: f64, t: f64| -> Assoc<f64> { vec![("distance".to_string(), d), ("time".to_string(), t)] };
@@ -1186,6 +1300,8 @@ fn real_boundary() -> Vec<RealCase> {
         c.cfg_v = vec![("distance".to_string(), Rate::Factor(0.5))];
         out.push(c);
     }
+    // many hops against few hops, every unit pair (edge-locality: the accumulator must not leak into an edge's cost)
+    out.extend(chain_cases());
     // outside the hypothesis: product aggregation (A* makes no claim, Dijkstra still does)
     {
         let mut c = blank_case("mul_aggregation");
@@ -1224,12 +1340,34 @@ fn run_real_stream(a: &Args) {
     while st.next_id() < a.n {
         let mut r = rng.fork();
         let metric = !r.chance(1, 8);
-        let mut c = blank_case(if metric { "random_metric" } else { "random_nonmetric" });
+        let chain = r.chance(1, 5);
+        let mut c = blank_case(if chain { "random_chain_vs_direct" } else if metric { "random_metric" } else { "random_nonmetric" });
         c.speed_model = r.chance(2, 3);
         gen_units(&mut r, &mut c);
-        gen_network(&mut r, &mut c, metric);
-        gen_objective(&mut r, &mut c);
         c.reverse = r.chance(1, 3);
+        if chain {
+            // the state features always get their own unit here, different units on both sides most of the time
+            c.fdu = Some(r.pick(&DIST_UNITS[..]).to_string());
+            if c.speed_model {
+                c.ftu = Some(r.pick(&TIME_UNITS[..]).to_string());
+            }
+            let hops = r.range(20, 60) as usize;
+            let short = r.range(20, 300) as f64;
+            let delta = r.range(5, 50) as f64 / 10000.0;
+            let speed = match c.su.as_str() {
+                "meters_per_second" => 15.0,
+                "miles_per_hour" => 35.0,
+                _ => 50.0,
+            };
+            chain_network(&mut c, hops, short, delta, speed);
+        } else {
+            gen_network(&mut r, &mut c, metric);
+        }
+        gen_objective(&mut r, &mut c);
+        if chain {
+            // per-edge surcharges would dominate the 0.05-0.5 % margin
+            c.cfg_n = None;
+        }
         match r.below(6) {
             0 => c.alg_wf = Some(0.5),
             1 => c.q_wf = Some(*r.pick(&[0.0, 0.5, 1.0])),
